@@ -13,6 +13,7 @@ import (
 	"fmt"
 	"go/constant"
 	"go/token"
+	"go/types"
 	"sort"
 	"strings"
 
@@ -610,6 +611,8 @@ func c09CommentDelivery(w *World, r *Report) {
 	}
 	judged := map[*ssa.Call]bool{}
 	cnt := map[string]int{}
+	allElems := map[ssa.Value]bool{}
+	defer func() { c09MarkedIsEmitted(w, r, cf, allElems) }()
 	for _, sd := range seeds {
 		cnt[fnKey(sd.fn)]++
 		key := fmt.Sprintf("%s hidden-token query #%d: the text of the comments found is handed on", fnKey(sd.fn), cnt[fnKey(sd.fn)])
@@ -619,6 +622,7 @@ func c09CommentDelivery(w *World, r *Report) {
 			els := elementsOf(map[ssa.Value]bool{l: true})
 			elems := cf.flowFrom(els)
 			for e := range elems {
+				allElems[e] = true
 				refs := e.Referrers()
 				if refs == nil {
 					continue
@@ -687,4 +691,339 @@ func listInFn(l ssa.Value, fn *ssa.Function) bool {
 		return x.Parent() == fn
 	}
 	return false
+}
+
+// ---- D3: a comment that is recorded as emitted is emitted ----
+//
+// The formatter keeps a set of the comment tokens it has already printed (a comment is reachable from the token before and the
+// token after it). Recording a token there *without* printing its text deletes the comment: every later query skips it.
+// Decided: from every instruction that records a hidden token in a map keyed by tokens (directly, or by calling a helper that does -
+// a bool helper that records only on the paths where it returns true counts on the true edge of its result), every path to the end
+// of the iteration / function passes a place where that token's text is taken (GetText() used, or a helper that takes it).
+
+type cmtSummaries struct {
+	marks    map[*ssa.Function]map[int]bool // parameter indices recorded in a token-keyed map
+	onlyTrue map[*ssa.Function]bool         // ... and only on paths that return true
+	texts    map[*ssa.Function]map[int]bool // parameter indices whose GetText() is taken
+}
+
+func isTokenKeyedMap(t types.Type) bool {
+	m, ok := t.Underlying().(*types.Map)
+	if !ok {
+		return false
+	}
+	return strings.HasSuffix(types.TypeString(m.Key(), nil), "antlr/v4.Token")
+}
+
+func (cf *cmtFlow) summaries() *cmtSummaries {
+	cs := &cmtSummaries{map[*ssa.Function]map[int]bool{}, map[*ssa.Function]bool{}, map[*ssa.Function]map[int]bool{}}
+	paramIdx := func(fn *ssa.Function, v ssa.Value) int {
+		v = stripIdentity(v)
+		for i, p := range fn.Params {
+			if ssa.Value(p) == v {
+				return i
+			}
+		}
+		return -1
+	}
+	for changed := true; changed; {
+		changed = false
+		for _, fn := range cf.fns {
+			forEachInstr(fn, func(_ *ssa.BasicBlock, ins ssa.Instruction) {
+				switch x := ins.(type) {
+				case *ssa.MapUpdate:
+					if isTokenKeyedMap(x.Map.Type()) {
+						if i := paramIdx(fn, x.Key); i >= 0 && !cs.marks[fn][i] {
+							if cs.marks[fn] == nil {
+								cs.marks[fn] = map[int]bool{}
+							}
+							cs.marks[fn][i] = true
+							changed = true
+						}
+					}
+				case *ssa.Call:
+					if x.Call.IsInvoke() && x.Call.Method.Name() == "GetText" {
+						if i := paramIdx(fn, x.Call.Value); i >= 0 && !cs.texts[fn][i] && hasRealUse(x) {
+							if cs.texts[fn] == nil {
+								cs.texts[fn] = map[int]bool{}
+							}
+							cs.texts[fn][i] = true
+							changed = true
+						}
+						return
+					}
+					for _, g := range cf.calleesOf(x) {
+						for j, a := range x.Call.Args {
+							i := paramIdx(fn, a)
+							if i < 0 {
+								continue
+							}
+							if cs.marks[g][j] && !cs.marks[fn][i] {
+								if cs.marks[fn] == nil {
+									cs.marks[fn] = map[int]bool{}
+								}
+								cs.marks[fn][i] = true
+								changed = true
+							}
+							if cs.texts[g][j] && !cs.texts[fn][i] {
+								if cs.texts[fn] == nil {
+									cs.texts[fn] = map[int]bool{}
+								}
+								cs.texts[fn][i] = true
+								changed = true
+							}
+						}
+					}
+				}
+			})
+		}
+	}
+	// onlyTrue: a single bool result, and every return reachable from a recording instruction returns the constant true
+	for fn := range cs.marks {
+		res := fn.Signature.Results()
+		if res.Len() != 1 {
+			continue
+		}
+		if b, ok := res.At(0).Type().Underlying().(*types.Basic); !ok || b.Kind() != types.Bool {
+			continue
+		}
+		ok := true
+		forEachInstr(fn, func(_ *ssa.BasicBlock, ins ssa.Instruction) {
+			if !cf.isMark(ins, cs, nil) {
+				return
+			}
+			for _, b := range fn.Blocks {
+				ret, isRet := b.Instrs[len(b.Instrs)-1].(*ssa.Return)
+				if !isRet {
+					continue
+				}
+				if ins.Block() != b && !blockReachable(ins.Block(), b) {
+					continue
+				}
+				k, isK := ret.Results[0].(*ssa.Const)
+				if !isK || k.Value == nil || k.Value.Kind() != constant.Bool || !constant.BoolVal(k.Value) {
+					ok = false
+				}
+			}
+		})
+		if ok {
+			cs.onlyTrue[fn] = true
+		}
+	}
+	return cs
+}
+
+func hasRealUse(v ssa.Value) bool {
+	refs := v.Referrers()
+	if refs == nil {
+		return false
+	}
+	for _, r := range *refs {
+		if _, dbg := r.(*ssa.DebugRef); !dbg {
+			return true
+		}
+	}
+	return false
+}
+
+func blockReachable(from, to *ssa.BasicBlock) bool {
+	seen := map[*ssa.BasicBlock]bool{}
+	stack := append([]*ssa.BasicBlock(nil), from.Succs...)
+	for len(stack) > 0 {
+		b := stack[len(stack)-1]
+		stack = stack[:len(stack)-1]
+		if seen[b] {
+			continue
+		}
+		seen[b] = true
+		if b == to {
+			return true
+		}
+		stack = append(stack, b.Succs...)
+	}
+	return false
+}
+
+// isMark: ins records token e (nil: any token) as emitted.
+func (cf *cmtFlow) isMark(ins ssa.Instruction, cs *cmtSummaries, e ssa.Value) bool {
+	switch x := ins.(type) {
+	case *ssa.MapUpdate:
+		return isTokenKeyedMap(x.Map.Type()) && (e == nil || stripIdentity(x.Key) == stripIdentity(e))
+	case *ssa.Call:
+		for _, g := range cf.calleesOf(x) {
+			for j, a := range x.Call.Args {
+				if cs.marks[g][j] && (e == nil || stripIdentity(a) == stripIdentity(e)) {
+					return true
+				}
+			}
+		}
+	}
+	return false
+}
+
+func (cf *cmtFlow) isTextOf(ins ssa.Instruction, cs *cmtSummaries, e ssa.Value) bool {
+	c, ok := ins.(*ssa.Call)
+	if !ok {
+		return false
+	}
+	if c.Call.IsInvoke() && c.Call.Method.Name() == "GetText" {
+		return stripIdentity(c.Call.Value) == stripIdentity(e) && hasRealUse(c)
+	}
+	for _, g := range cf.calleesOf(c) {
+		for j, a := range c.Call.Args {
+			if cs.texts[g][j] && stripIdentity(a) == stripIdentity(e) {
+				return true
+			}
+		}
+	}
+	return false
+}
+
+func c09MarkedIsEmitted(w *World, r *Report, cf *cmtFlow, elems map[ssa.Value]bool) {
+	const rule = "C09/comment-delivery"
+	cs := cf.summaries()
+	type key struct {
+		fn *ssa.Function
+	}
+	cnt := map[string]int{}
+	var vals []ssa.Value
+	for e := range elems {
+		vals = append(vals, e)
+	}
+	sort.Slice(vals, func(i, j int) bool { return vals[i].Pos() < vals[j].Pos() })
+	judged := map[ssa.Instruction]bool{}
+	for _, e := range vals {
+		var fn *ssa.Function
+		switch x := e.(type) {
+		case *ssa.Parameter:
+			fn = x.Parent()
+		case ssa.Instruction:
+			fn = x.Parent()
+		}
+		if fn == nil || fn.Blocks == nil {
+			continue
+		}
+		// where the iteration over this element ends: the block that defines it is entered again, or the function returns
+		var defBlock *ssa.BasicBlock
+		if ins, ok := e.(ssa.Instruction); ok {
+			defBlock = ins.Block()
+		}
+		forEachInstr(fn, func(b *ssa.BasicBlock, ins ssa.Instruction) {
+			if judged[ins] || !cf.isMark(ins, cs, e) {
+				return
+			}
+			judged[ins] = true
+			if p, isParam := e.(*ssa.Parameter); isParam {
+				// the recording happens for a parameter: the obligation is the callers' unless the text is taken here as well
+				idx := -1
+				for i, q := range fn.Params {
+					if q == p {
+						idx = i
+					}
+				}
+				if !cs.texts[fn][idx] {
+					return
+				}
+			}
+			cnt[fnKey(fn)]++
+			k := fmt.Sprintf("%s records a comment as emitted #%d: its text is taken on every path that follows", fnKey(fn), cnt[fnKey(fn)])
+			// start points
+			starts := []*ssa.BasicBlock{}
+			inBlockTail := true
+			if c, isCall := ins.(*ssa.Call); isCall {
+				only := false
+				for _, g := range cf.calleesOf(c) {
+					if cs.onlyTrue[g] {
+						only = true
+					}
+				}
+				if only {
+					if iff, ok := b.Instrs[len(b.Instrs)-1].(*ssa.If); ok {
+						cond := iff.Cond
+						neg := false
+						for {
+							if u, ok := cond.(*ssa.UnOp); ok && u.Op == token.NOT {
+								cond = u.X
+								neg = !neg
+								continue
+							}
+							break
+						}
+						if cond == ssa.Value(c) {
+							inBlockTail = false
+							if neg {
+								starts = append(starts, b.Succs[1])
+							} else {
+								starts = append(starts, b.Succs[0])
+							}
+						}
+					}
+				}
+			}
+			// text taken before the recording in the same block / a dominating block counts as well
+			before := false
+			forEachInstr(fn, func(b2 *ssa.BasicBlock, i2 ssa.Instruction) {
+				if cf.isTextOf(i2, cs, e) && instrDominates(i2, ins) {
+					before = true
+				}
+			})
+			if before {
+				r.pass(rule, k, w.instrPos(ins), "text taken before the token is recorded")
+				return
+			}
+			textIn := func(blk *ssa.BasicBlock, from int) bool {
+				for i := from; i < len(blk.Instrs); i++ {
+					if cf.isTextOf(blk.Instrs[i], cs, e) {
+						return true
+					}
+				}
+				return false
+			}
+			if inBlockTail {
+				pos := 0
+				for i, x := range b.Instrs {
+					if x == ins {
+						pos = i + 1
+					}
+				}
+				if textIn(b, pos) {
+					r.pass(rule, k, w.instrPos(ins), "")
+					return
+				}
+				starts = append(starts, b.Succs...)
+				if len(b.Succs) == 0 {
+					r.fail(rule, k, w.instrPos(ins), "the token is recorded as emitted and the function returns without taking its text: the comment is deleted")
+					return
+				}
+			}
+			seen := map[*ssa.BasicBlock]bool{}
+			lost := ""
+			stack := starts
+			for len(stack) > 0 && lost == "" {
+				x := stack[len(stack)-1]
+				stack = stack[:len(stack)-1]
+				if seen[x] {
+					continue
+				}
+				seen[x] = true
+				if x == defBlock {
+					lost = "the next iteration starts"
+					break
+				}
+				if textIn(x, 0) {
+					continue
+				}
+				if _, isRet := x.Instrs[len(x.Instrs)-1].(*ssa.Return); isRet {
+					lost = "the function returns"
+					break
+				}
+				stack = append(stack, x.Succs...)
+			}
+			if lost == "" {
+				r.pass(rule, k, w.instrPos(ins), "")
+			} else {
+				r.fail(rule, k, w.instrPos(ins), "after the token was recorded as emitted there is a path on which "+lost+" without its text having been taken: the comment is deleted (every later query skips a recorded token)")
+			}
+		})
+	}
 }
